@@ -37,10 +37,13 @@ RULE = (
     "tuple/dict net_arch, numpy-scalar hyper-parameters, user attributes with tuples and non-string keys} x save point "
     "{fresh, trained} x path kind {BytesIO, str, str without suffix, pathlib, open file} x exclude/include sets x "
     "load with/without env, kwargs; (partition) exclude/include sets on cached models; (setparams) name sets x exact_match; "
-    "(path) open_path targets with pre-existing files; (replay) save/load_replay_buffer incl. HER +/- truncation; (vecnorm) "
+    "(path) open_path targets with pre-existing files; (replay) save/load_replay_buffer incl. HER +/- truncation; (herbuf) HER "
+    "buffers with 2-3 envs filled through add() with de-synchronised episode ends (terminated / truncated / open at the last "
+    "stored step), truncate_last_traj True/False/default, seeded sample compared; (vecnorm) "
     "VecNormalize.save/load. non-trivial = codec case with a pickled (non JSON-native) attribute, whole case saved after "
     "training (non-empty optimizer state), partition case with a non-empty include or exclude, replay case with an "
-    "unfinished HER episode, vecnorm case with updated statistics; distinct = distinct canonical case"
+    "unfinished HER episode, herbuf case saved with one env terminated on the last step next to an open one and truncated on "
+    "load, vecnorm case with updated statistics; distinct = distinct canonical case"
 )
 STREAMS = {
     "codec_doc": "JSON document written by data_to_json == model's dataToJson (pickle blobs replaced by tokens)",
@@ -1476,6 +1479,15 @@ def cmp_model_case(ctx, case, r, outs):
 
 def shrink_model_case(case):
     k = case.get("kind")
+    if k == "herbuf":
+        sc = case["script"]
+        if len(sc) > 1:
+            for i in range(len(sc) - 1):
+                yield dict(case, script=sc[:i] + sc[i + 1:])
+        for f, val in (("path", "bytesio"), ("n_sampled_goal", 1), ("strategy", "final")):
+            if case[f] != val:
+                yield dict(case, **{f: val})
+        return
     if k == "whole":
         for f, val in (("exclude", []), ("include", []), ("kwargs", {}), ("steps", 0), ("path", "bytesio")):
             if case[f] != val:
@@ -2024,3 +2036,161 @@ def run_vecnorm(ctx, case, ops, plan):
 EXTRA_GENS.extend([(gen_replay, (40, 400)), (gen_vecnorm, (60, 600))])
 RUNNERS.update(replay=run_replay, vecnorm=run_vecnorm)
 COMPARERS.update(replay=cmp_state, vecnorm=cmp_state)
+
+
+# =============================================================================================
+# stream: HER buffers filled through add() with de-synchronised episode ends, saved on their own
+# =============================================================================================
+def gen_herbuf(rng, widen):
+    n = rng.choice([2, 2, 3])
+    rows = rng.randint(6, 10)
+    T = rng.weighted([(rng.randint(2, rows - 1), 3), (rng.randint(rows, 2 * rows), 2)])
+    script, run = [], [0] * n
+    for t in range(T):
+        step = []
+        for e in range(n):
+            run[e] += 1
+            k = rng.weighted([("cont", 5), ("term", 1.5), ("trunc", 1.5)]) if run[e] < 4 else rng.choice(["term", "trunc"])
+            if k != "cont":
+                run[e] = 0
+            step.append(k)
+        script.append(step)
+    if rng.chance(0.7):
+        # the interesting shapes at the moment of saving: one env truly terminated on the last stored step,
+        # another one mid-episode, a third one truncated / anything
+        last = ["term", "cont"] + ([rng.choice(["trunc", "cont", "term"])] if n == 3 else [])
+        rng.shuffle(last)
+        script[-1] = last
+    return {"kind": "herbuf", "n_envs": n, "rows": rows, "script": script,
+            "truncate": rng.choice([True, False, "default"]), "handle_timeout": rng.chance(0.85),
+            "strategy": rng.choice(["future", "final", "episode"]), "n_sampled_goal": rng.randint(1, 3),
+            "path": rng.choice(["bytesio", "str", "str_nosuffix", "pathlib"]), "sample_seed": rng.randint(0, 10**6)}
+
+
+def her_model(case):
+    import stable_baselines3 as sb3
+    from stable_baselines3 import HerReplayBuffer
+
+    cfg = {"algo": "sac", "obs": "goal", "n_envs": case["n_envs"]}
+    return sb3.SAC("MultiInputPolicy", make_vec(cfg), replay_buffer_class=HerReplayBuffer,
+                   replay_buffer_kwargs=dict(n_sampled_goal=case["n_sampled_goal"], goal_selection_strategy=case["strategy"],
+                                             handle_timeout_termination=case["handle_timeout"]),
+                   buffer_size=case["rows"] * case["n_envs"], learning_starts=10**6, policy_kwargs=dict(net_arch=[4]),
+                   device="cpu", seed=1, verbose=0)
+
+
+def her_fill(buf, case):
+    n = case["n_envs"]
+
+    def obs_at(t):
+        base = np.array([[(t * 8 + e * 3 + 1) / 256.0, -(t * 8 + e * 3 + 2) / 256.0] for e in range(n)], np.float32)
+        return {"observation": base, "achieved_goal": base[:, ::-1].copy(), "desired_goal": np.full((n, 2), 0.25, np.float32)}
+
+    for t, step in enumerate(case["script"]):
+        done = np.array([k != "cont" for k in step])
+        infos = [({"TimeLimit.truncated": True} if k == "trunc" else {}) for k in step]
+        buf.add(obs_at(t), obs_at(t + 1), np.full((n, 2), (t + 1) / 64.0, np.float32),
+                np.array([-(t % 3) / 2.0 for _ in range(n)], np.float32), done, infos)
+
+
+def sample_fields(buf, seed, batch=16):
+    np.random.seed(seed)
+    s = buf.sample(batch)
+    out = {"actions": s.actions.numpy(), "dones": s.dones.numpy(), "rewards": s.rewards.numpy()}
+    for k, v in s.observations.items():
+        out["obs." + k] = v.numpy()
+    for k, v in s.next_observations.items():
+        out["next." + k] = v.numpy()
+    return out
+
+
+def run_herbuf(ctx, case, ops, plan):
+    rep = ctx.report
+    trunc = case["truncate"] in (True, "default")
+
+    def go():
+        tmp = tempfile.mkdtemp(prefix="c09h_")
+        try:
+            with warnings.catch_warnings():
+                warnings.simplefilter("ignore")
+                m1 = her_model(case)
+                b1 = m1.replay_buffer
+                her_fill(b1, case)
+                before = {k: (v.copy() if isinstance(v, np.ndarray) else ({kk: vv.copy() for kk, vv in v.items()}
+                                                                          if isinstance(v, dict) and k.endswith("observations") else v))
+                          for k, v in vars(b1).items() if k != "env"}
+                open_envs = [int(e) for e in np.where(b1._current_ep_start != b1.pos)[0]]
+                can_sample = bool((b1.ep_length > 0).any())
+                s1 = sample_fields(b1, case["sample_seed"]) if can_sample else None
+                pk = case["path"]
+                target = (io.BytesIO() if pk == "bytesio" else os.path.join(tmp, "rb.pkl") if pk == "str"
+                          else os.path.join(tmp, "d", "rb") if pk == "str_nosuffix" else pathlib.Path(tmp) / "rb")
+                m1.save_replay_buffer(target)
+                if pk == "bytesio":
+                    target.seek(0)
+                m2 = her_model(case)
+                if case["truncate"] == "default":
+                    m2.load_replay_buffer(target)
+                else:
+                    m2.load_replay_buffer(target, truncate_last_traj=case["truncate"])
+                b2 = m2.replay_buffer
+                same_sampling = can_sample and (not trunc or not open_envs)
+                s2 = sample_fields(b2, case["sample_seed"]) if same_sampling else None
+                return {"b1": before, "b2": dict(vars(b2)), "m2": m2, "open": open_envs, "s1": s1, "s2": s2,
+                        "same_sampling": same_sampling, "after1": {k: v for k, v in vars(b1).items() if k != "env"}}
+        finally:
+            shutil.rmtree(tmp, ignore_errors=True)
+
+    r = guarded(ctx, case, go)
+    last = case["script"][-1]
+    desync = "term" in last and "cont" in last
+    rep.case(case, case if (trunc and desync) else None)
+    rep.count(f"herbuf:n_envs={case['n_envs']}")
+    rep.count(f"herbuf:truncate={case['truncate']}")
+    if desync:
+        rep.count("herbuf:terminated_env_next_to_open_env_at_save")
+    if r is None:
+        return
+    if r["open"] and trunc:
+        rep.count("herbuf:open_episode_truncated")
+    want = {k: v for k, v in r["b1"].items() if k != "device"}
+    touched = False
+    if trunc:
+        want, touched = expected_truncation(want)
+    got = {k: v for k, v in r["b2"].items() if k not in ("env", "device")}
+    sig = {"stream": "herbuf", "truncate": trunc, "open_envs": len(r["open"]), "n_envs": case["n_envs"]}
+    d = deq(want, got, "replay_buffer")
+    if d:
+        field = d[0][0].split("[")[1].strip("'\"]") if "[" in d[0][0] else d[0][0]
+        rep.violation("a HER replay buffer does not round-trip through save_replay_buffer/load_replay_buffer: outside the episode "
+                      "that was open when it was saved, a stored array changed", case, dict(sig, kind="content", field=field),
+                      {"diff": [list(x) for x in d[:4]], "open_envs": r["open"]})
+    # the effective done flag of every transition of a finished episode (what the critic bootstraps on)
+    b1, b2 = r["b1"], r["b2"]
+    eff1 = b1["dones"] * (1 - b1["timeouts"])
+    eff2 = b2["dones"] * (1 - b2["timeouts"])
+    fin = b1["ep_length"] > 0
+    if not d and not np.array_equal(eff1[fin], eff2[fin]):
+        rep.violation("effective done flag of a finished episode changed", case, dict(sig, kind="effective_done"))
+    if r["same_sampling"]:
+        ds = deq(r["s1"], r["s2"], "sample")
+        if ds:
+            rep.violation("the same seeded sample differs before save / after load", case, dict(sig, kind="sample"),
+                          {"diff": [list(x) for x in ds[:3]]})
+        else:
+            rep.count("herbuf:seeded_sample_compared")
+    if deq(r["b1"], r["after1"], "saved"):
+        rep.violation("save_replay_buffer modified the buffer it saved", case, dict(sig, kind="saver_modified"))
+    if r["b2"].get("env") is not r["m2"].env:
+        rep.violation("loaded HER buffer is not bound to the model's environment", case, dict(sig, kind="env"))
+    names = [k for k in list(r["b1"]) if k != "device"] + ["device", "env"]
+    rebind = ["device", "env"] + (["dones", "timeouts", "ep_length", "_current_ep_start"] if touched else [])
+    r["names"] = names
+    r["same"] = {k: not deq(r["b1"].get(k), r["b2"].get(k)) for k in names if k in r["b1"]}
+    plan.append((case, r, len(ops), 1))
+    ops.append({"op": "state", "dropped": ["env"], "attrs": names, "rebind": rebind})
+
+
+EXTRA_GENS.append((gen_herbuf, (90, 900)))
+RUNNERS.update(herbuf=run_herbuf)
+COMPARERS.update(herbuf=cmp_state)
